@@ -39,6 +39,6 @@ def limitsD : ParsersLoopD.LimitsD :=
   { hdr := Facts.dtlcp.recordHeaderLen, hsHdr := Facts.dtlcp.dtlcpHeaderLen, maxCiphertext := Facts.dtlcp.maxCiphertext,
     maxPlaintext := Facts.dtlcp.maxPlaintext, maxHandshake := Facts.dtlcp.maxHandshake,
     maxUseless := Facts.dtlcp.maxUselessRecords, maxFragments := Facts.dtlcp.maxHandshakeFragments,
-    refusePostHs := Facts.dtlcp.hsPostHandshakeRefused }
+    refusePostHs := Facts.dtlcp.hsPostHandshakeRefused, deliveredGuard := Facts.dtlcp.recDeliveredGuard }
 
 end Gotlcp.Model.Parsers
